@@ -15,6 +15,9 @@ pub enum Family {
     Idle,
     /// timeouts against free / full / closed mailboxes
     Timeouts,
+    /// the shutdown window: a backlog, then stop() (also on a full mailbox), then traffic, kill, drops
+    /// and ticks while the marker travels and while on_stop is suspended
+    Shutdown,
 }
 
 pub fn family_of(name: &str) -> Option<Family> {
@@ -24,6 +27,7 @@ pub fn family_of(name: &str) -> Option<Family> {
         "handles" => Family::Handles,
         "idle" => Family::Idle,
         "timeouts" => Family::Timeouts,
+        "shutdown" => Family::Shutdown,
         _ => return None,
     })
 }
@@ -50,7 +54,7 @@ impl Gen {
     fn spawn_line(&mut self) -> String {
         let r = &mut self.rng;
         let cap = match self.family {
-            Family::Burst | Family::Timeouts => *r.pick(&[1usize, 1, 2, 2, 3]),
+            Family::Burst | Family::Timeouts | Family::Shutdown => *r.pick(&[1usize, 1, 2, 2, 3]),
             _ => *r.pick(CAPS),
         };
         let so = |r: &mut Rng, okw: u64| match r.weighted(&[okw, 1, 1]) {
@@ -164,6 +168,40 @@ impl Gen {
                         2 => format!("kill {}", self.pick_handle(w, true)),
                         3 => format!("drop {}", self.pick_handle(w, true)),
                         _ => "tick".to_string(),
+                    }
+                }
+            }
+            Family::Shutdown => {
+                use std::sync::atomic::Ordering;
+                let in_stop = w.sh.in_stop.load(Ordering::SeqCst);
+                let backlog = 2 + (self.len % 7);
+                if self.emitted <= 2 {
+                    "gate".to_string()
+                } else if self.emitted < backlog + 2 {
+                    self.send_line(w)
+                } else if self.phase == 0 {
+                    self.phase = 1;
+                    let h = self.pick_handle(w, true);
+                    if self.rng.chance(1, 6) { format!("drop {h}") } else { format!("stop {h}") }
+                } else if in_stop {
+                    // on_stop is suspended: this is the window
+                    match self.rng.weighted(&[6, 4, 4, 2, 1, 1, 1]) {
+                        0 => "gate".to_string(),
+                        1 => format!("kill {}", self.pick_handle(w, true)),
+                        2 => self.send_line(w),
+                        3 => "tick".to_string(),
+                        4 => format!("stop {}", self.pick_handle(w, true)),
+                        5 => format!("drop {}", self.pick_handle(w, true)),
+                        _ => format!("alive {}", self.pick_handle(w, true)),
+                    }
+                } else {
+                    match self.rng.weighted(&[12, 5, 1, 1, 1, 1]) {
+                        0 => "gate".to_string(),
+                        1 => self.send_line(w),
+                        2 => format!("kill {}", self.pick_handle(w, true)),
+                        3 => "tick".to_string(),
+                        4 => format!("stop {}", self.pick_handle(w, true)),
+                        _ => format!("clone {}", self.pick_handle(w, true)),
                     }
                 }
             }
